@@ -268,11 +268,11 @@ theorem entriesOf_append (cfg : Cfg) (c r : Bytes) (hc : c.length % dynSize cfg.
 /-! ### NUL-terminated strings -/
 
 theorem cstr_append_of_contains {a : Bytes} (x : Bytes) (h : a.contains 0 = true) :
-    cstr (a ++ x) = cstr a := by
+    dynCstr (a ++ x) = dynCstr a := by
   induction a with
   | nil => simp at h
   | cons b bs ih =>
-    unfold cstr at *
+    unfold dynCstr at *
     by_cases hb : b = 0
     · subst hb; simp [List.takeWhile]
     · have hb' : (b != 0) = true := by simpa using hb
@@ -286,20 +286,20 @@ theorem cstr_append_of_contains {a : Bytes} (x : Bytes) (h : a.contains 0 = true
         | true => exact absurd (by simpa using h0 : (0 : UInt8) = b).symm hb
       simpa [this] using h
 
-theorem cstr_cstr_nul (s : Bytes) : cstr (cstr s ++ [0]) = cstr s := by
+theorem cstr_cstr_nul (s : Bytes) : dynCstr (dynCstr s ++ [0]) = dynCstr s := by
   induction s with
-  | nil => simp [cstr]
+  | nil => simp [dynCstr]
   | cons b bs ih =>
-    unfold cstr at *
+    unfold dynCstr at *
     by_cases hb : b = 0
     · subst hb; simp [List.takeWhile]
     · have hb' : (b != 0) = true := by simpa using hb
       simp only [List.takeWhile_cons, hb', if_true, List.cons_append]
       rw [ih]
 
-theorem strAt_append {tbl : Bytes} (x : Bytes) {p : Nat} {s : Bytes} (h : strAt tbl p = some s) :
-    strAt (tbl ++ x) p = some s := by
-  unfold strAt at *
+theorem strAt_append {tbl : Bytes} (x : Bytes) {p : Nat} {s : Bytes} (h : dynStrAt tbl p = some s) :
+    dynStrAt (tbl ++ x) p = some s := by
+  unfold dynStrAt at *
   by_cases hp : p < tbl.length
   · simp only [hp, if_true] at h
     by_cases hc : (tbl.drop p).contains 0 = true
@@ -314,20 +314,20 @@ theorem strAt_append {tbl : Bytes} (x : Bytes) {p : Nat} {s : Bytes} (h : strAt 
     · rw [if_neg hc] at h; exact absurd h (by simp)
   · simp [hp] at h
 
-theorem strAt_strAdd (tbl s : Bytes) : strAt (strAdd tbl s).1 (strAdd tbl s).2 = some (cstr s) := by
-  unfold strAdd strAt
+theorem strAt_strAdd (tbl s : Bytes) : dynStrAt (strAdd tbl s).1 (strAdd tbl s).2 = some (dynCstr s) := by
+  unfold strAdd dynStrAt
   simp only
   generalize (if tbl.length = 0 then [0] else tbl) = t0
-  have h1 : t0.length < (t0 ++ (cstr s ++ [0])).length := by simp
+  have h1 : t0.length < (t0 ++ (dynCstr s ++ [0])).length := by simp
   rw [if_pos h1, List.drop_left' rfl]
-  have h2 : (cstr s ++ [0]).contains 0 = true := by simp
+  have h2 : (dynCstr s ++ [0]).contains 0 = true := by simp
   rw [if_pos h2, cstr_cstr_nul]
 
-theorem strAt_strAdd_mono {tbl : Bytes} (s : Bytes) {p : Nat} {r : Bytes} (h : strAt tbl p = some r) :
-    strAt (strAdd tbl s).1 p = some r := by
+theorem strAt_strAdd_mono {tbl : Bytes} (s : Bytes) {p : Nat} {r : Bytes} (h : dynStrAt tbl p = some r) :
+    dynStrAt (strAdd tbl s).1 p = some r := by
   unfold strAdd
   by_cases h0 : tbl.length = 0
-  · unfold strAt at h; simp [h0] at h
+  · unfold dynStrAt at h; simp [h0] at h
   · simp only [h0, if_false]
     exact strAt_append _ h
 
